@@ -17,6 +17,8 @@ enum Stmt {
     DropSchema { if_exists: bool },
     CreateTable { schema: bool, name: &'static str, if_not_exists: bool, or_replace: bool },
     Ctas,
+    /// CTAS whose query is an inner join: with an empty t1 its pipeline ends without producing any batch
+    CtasJoin,
     /// CREATE TEMP TABLE IF NOT EXISTS <t1|t2> AS ...
     CtasIfNotExists { target_t1: bool },
     CreateView,
@@ -40,6 +42,7 @@ impl Stmt {
             Stmt::DropSchema { if_exists } => format!("DROP SCHEMA {}s1", if *if_exists { "IF EXISTS " } else { "" }),
             Stmt::CreateTable { schema, name, if_not_exists, or_replace } => format!("CREATE {}TEMP TABLE {}{}{} (a INT, b TEXT)", if *or_replace { "OR REPLACE " } else { "" }, if *if_not_exists { "IF NOT EXISTS " } else { "" }, if *schema { "s1." } else { "" }, name),
             Stmt::Ctas => "CREATE TEMP TABLE t2 AS SELECT a + 100 AS a, b FROM t1".into(),
+            Stmt::CtasJoin => "CREATE TEMP TABLE t2 AS SELECT x.a + 100 AS a, x.b FROM t1 x JOIN (VALUES (1), (2), (11), (12)) k(v) ON x.a = k.v".into(),
             Stmt::CtasIfNotExists { target_t1: true } => "CREATE TEMP TABLE IF NOT EXISTS t1 AS SELECT CAST(7 AS INT) AS a, 'z' AS b".into(),
             Stmt::CtasIfNotExists { target_t1: false } => "CREATE TEMP TABLE IF NOT EXISTS t2 AS SELECT a + 100 AS a, b FROM t1".into(),
             Stmt::CreateView => "CREATE TEMP VIEW v1 AS SELECT * FROM t1".into(),
@@ -67,6 +70,7 @@ fn alphabet(tier: Tier) -> Vec<Stmt> {
         Stmt::DropTable { name: "t1", if_exists: false },
         Stmt::CreateView,
         Stmt::Ctas,
+        Stmt::CtasJoin,
         Stmt::CtasIfNotExists { target_t1: true },
         Stmt::CreateSchema { if_not_exists: false },
         Stmt::CreateTable { schema: true, name: "t1", if_not_exists: false, or_replace: false },
@@ -164,6 +168,19 @@ fn apply(s: &Sess, st: &Stmt) -> (Expect, Sess, Option<i128>) {
                 return (Expect::Error, n, None);
             }
             let rows: Vec<Row> = src.iter().map(|r| vec![add(&r[0], 100), r[1].clone()]).collect();
+            let cnt = rows.len() as i128;
+            n.tables.insert(tkey("temp", "t2"), rows);
+            (Expect::Ok, n, Some(cnt))
+        }
+        Stmt::CtasJoin => {
+            let src = match s.tables.get(&tkey("temp", "t1")) {
+                Some(r) => r,
+                None => return (Expect::Error, n, None),
+            };
+            if s.tables.contains_key(&tkey("temp", "t2")) {
+                return (Expect::Error, n, None);
+            }
+            let rows: Vec<Row> = src.iter().filter(|r| matches!(&r[0], Val::Int(a) if [1, 2, 11, 12].contains(a))).map(|r| vec![add(&r[0], 100), r[1].clone()]).collect();
             let cnt = rows.len() as i128;
             n.tables.insert(tkey("temp", "t2"), rows);
             (Expect::Ok, n, Some(cnt))
